@@ -58,6 +58,10 @@ func genElem(r *rand.Rand) V {
 	if r.Intn(6) == 0 {
 		return V{T: 'N'}
 	}
+	if r.Intn(30) == 0 {
+		// zero-valued instances (native, alias, pointer to one): values like any other, each takes its slot
+		return V{T: []byte{'Z', 'Y'}[r.Intn(2)], Form: []string{"n", "a", "p"}[r.Intn(3)]}
+	}
 	if r.Intn(14) == 0 {
 		// values that are not nil although there is nothing behind them: an element like any other (typed nil pointers;
 		// never 5:2 / 5:3 next to 20:1 / 20:2, which are the same values)
@@ -601,6 +605,15 @@ func genCapx(r *rand.Rand, id string, tier string) string {
 }
 
 func genNestVal(r *rand.Rand) V {
+	v := genNestVal0(r)
+	if v.T == 'K' && r.Intn(4) == 0 {
+		// a Stack is a Stack whatever its own ValidityPolicy says about it at the moment (2: rejects)
+		v.Cfg.Vpf = 1 + r.Intn(2)
+	}
+	return v
+}
+
+func genNestVal0(r *rand.Rand) V {
 	nextLeaf++
 	switch r.Intn(9) {
 	case 0:
@@ -686,6 +699,9 @@ func genPol(r *rand.Rand, id string, tier string) string {
 	}
 	if r.Intn(5) == 0 {
 		c.Opt |= fNNest
+	}
+	if r.Intn(3) == 0 {
+		c.Mtx = true // the policy decides the same way on a mutex-enabled stack: once per value, while room remains
 	}
 	st := V{T: 'K', Form: "n", Cfg: c}
 	var ops []string
